@@ -115,7 +115,7 @@ func (w *World) LockWaiters() []string {
 	var out []string
 	for _, t := range s.tasks {
 		if t.lockWait.Load() == 1 && !t.Finished && !t.dead() {
-			out = append(out, fmt.Sprintf("%s@node%d", t.Name, t.Node))
+			out = append(out, fmt.Sprintf("%s#%d@node%d", t.Name, t.ID, t.Node))
 		}
 	}
 	return out
